@@ -38,6 +38,25 @@ func policyOracle(m *Sim, spec *xferSpec, f *wireFacts) {
 				firstTx[id.Msg] = t0
 			}
 		}
+		// instant from which every fragment of a message has been on the wire at least once
+		// (never, if some fragment was not transmitted at all)
+		nFrags := map[int]int{}
+		for _, id := range fragTable(spec) {
+			if id.SID == st.SID {
+				nFrags[id.Msg]++
+			}
+		}
+		sentFrags := map[int]int{}
+		allSentAt := map[int]time.Duration{}
+		for tsn, id := range ids {
+			if id.SID != st.SID {
+				continue
+			}
+			sentFrags[id.Msg]++
+			if t0 := f.Xmit[snd][tsn].Times[0]; t0 > allSentAt[id.Msg] {
+				allSentAt[id.Msg] = t0
+			}
+		}
 		late := map[int]int{}
 		for tsn, id := range ids {
 			if id.SID != st.SID {
@@ -61,7 +80,13 @@ func policyOracle(m *Sim, spec *xferSpec, f *wireFacts) {
 			switch relType {
 			case ReliabilityTypeRexmit:
 				if len(rec.Times) > int(relVal)+1 {
-					m.Failf("policy.rexmit", "stream %d (rexmit %d): TSN %d (message %d fragment %d) was put on the wire %d times at %v", st.SID, relVal, tsn, id.Msg, id.Frag, len(rec.Times), rec.Times)
+					// classified apart: the excess transmission happened while later fragments of
+					// the same message had not been sent yet (the message cannot be abandoned then)
+					oracle := "policy.rexmit"
+					if extra := rec.Times[int(relVal)+1]; sentFrags[id.Msg] < nFrags[id.Msg] || extra <= allSentAt[id.Msg] {
+						oracle = "policy.rexmit.partly-sent"
+					}
+					m.Failf(oracle, "stream %d (rexmit %d): TSN %d (message %d fragment %d) was put on the wire %d times at %v", st.SID, relVal, tsn, id.Msg, id.Frag, len(rec.Times), rec.Times)
 				}
 			case ReliabilityTypeTimed:
 				limit := firstTx[id.Msg] + time.Duration(relVal)*time.Millisecond
